@@ -11,6 +11,9 @@ import (
 	sdk "github.com/cosmos/cosmos-sdk/types"
 	"pgregory.net/rapid"
 
+	"github.com/regen-network/regen-ledger/x/data/v3"
+	"github.com/regen-network/regen-ledger/x/data/v3/server/hasher"
+
 	"verif/chain"
 	"verif/ref"
 )
@@ -331,8 +334,20 @@ func GenGenesis(t *rapid.T, prof *Profile) GenesisSpec {
 		}
 	}
 
+	// a data module that is not empty at genesis: anchors (one from before 1970, one with a hand-assigned one-byte
+	// id), an attestation, two resolvers sharing a URL and a registration
+	if prof.Weights["anchor"] > 0 && draw("g.datagenesis", 4) == 3 {
+		g.Data = genDataGenesis(accts)
+		g.Notes = append(g.Notes, "data-genesis{3 anchors, 1 attestation, 2 resolvers, 1 registration}")
+	}
+
 	g.Eco = mustJSON(doc)
 	tc := TemplateChain()
+	if g.Data != nil {
+		if err := tc.Data.ValidateGenesis(tc.Cdc, nil, g.Data); err != nil {
+			t.Fatalf("harness: generated data genesis rejected by ValidateGenesis: %v\n%s", err, g.Data)
+		}
+	}
 	if err := tc.Eco.ValidateGenesis(tc.Cdc, nil, g.Eco); err != nil {
 		t.Fatalf("harness: generated genesis rejected by ValidateGenesis: %v\n%s", err, g.Eco)
 	}
@@ -340,3 +355,44 @@ func GenGenesis(t *rapid.T, prof *Profile) GenesisSpec {
 }
 
 func feePoolAddrStr() string { return chain.FeePoolAddr().String() }
+
+// poolHash is entry i of the content-hash pool the data generators draw from (see contentHashPool).
+func poolHash(i int, ext string) *data.ContentHash {
+	h := make([]byte, 32)
+	for j := range h {
+		h[j] = byte(i*7 + j)
+	}
+	if i%2 == 0 {
+		return &data.ContentHash{Graph: &data.ContentHash_Graph{Hash: h, DigestAlgorithm: 1, CanonicalizationAlgorithm: 1}}
+	}
+	return &data.ContentHash{Raw: &data.ContentHash_Raw{Hash: h, DigestAlgorithm: 1, FileExtension: ext}}
+}
+
+func genDataGenesis(accts []sdk.AccAddress) json.RawMessage {
+	hs, err := hasher.NewHasher()
+	if err != nil {
+		panic(err)
+	}
+	iri := func(ch *data.ContentHash) string {
+		s, err := ch.ToIRI()
+		if err != nil {
+			panic(err)
+		}
+		return s
+	}
+	i0, i1, i2 := iri(poolHash(0, "")), iri(poolHash(1, "pdf")), iri(poolHash(2, ""))
+	id0, id1, id2 := hs.CreateID([]byte(i0), 0), hs.CreateID([]byte(i1), 0), []byte{0x01}
+	doc := map[string]interface{}{
+		"regen.data.v1.DataID": []map[string]interface{}{
+			{"id": b64(id0), "iri": i0}, {"id": b64(id1), "iri": i1}, {"id": b64(id2), "iri": i2}},
+		"regen.data.v1.DataAnchor": []map[string]interface{}{
+			{"id": b64(id0), "timestamp": "2020-01-01T00:00:00Z"}, {"id": b64(id1), "timestamp": "1969-12-31T23:59:59.5Z"}, {"id": b64(id2), "timestamp": "2022-06-01T12:00:00Z"}},
+		"regen.data.v1.DataAttestor": []map[string]interface{}{
+			{"id": b64(id0), "attestor": b64(accts[1]), "timestamp": "2021-03-04T05:06:07Z"}},
+		"regen.data.v1.Resolver": []interface{}{2,
+			map[string]interface{}{"id": "1", "url": "https://legacy.example/data", "manager": b64(accts[0])},
+			map[string]interface{}{"id": "2", "url": "https://legacy.example/data", "manager": b64(accts[1])}},
+		"regen.data.v1.DataResolver": []map[string]interface{}{{"resolver_id": "1", "id": b64(id0)}},
+	}
+	return mustJSON(doc)
+}
